@@ -32,7 +32,7 @@ def run(ctx):
     recs = []
     for i, force in enumerate([{"evlog": 1, "nprocs": 2, "perturb": 3}, {"evlog": 1, "nprocs": 3, "perturb": 2}, {"evlog": 1, "nprocs": 4, "perturb": 1},
                                {"evlog": 1, "nprocs": 8, "perturb": 3}]):
-        recs += S.sweep(ctx, 110 if q else 2500, 40 if q else 200, precs="d", drivers=("gssv", "gssvx"), force=force, seed_offset=300 + i)
+        recs += S.sweep(ctx, 110 if q else 1200, 40 if q else 140, precs="d", drivers=("gssv", "gssvx"), force=force, seed_offset=300 + i)
     evs = 0
     for r in recs:
         if r["status"] == "ok":
